@@ -12,7 +12,6 @@ package main
 // (`yes`, `1`) are accepted is API vocabulary and not frozen here.
 
 import (
-	"fmt"
 	"go/token"
 	"go/types"
 	"sort"
@@ -20,6 +19,14 @@ import (
 
 	"golang.org/x/tools/go/ssa"
 )
+
+// spellEnv binds the parameters of a helper to the values (and their own bindings) its caller passed.
+type spellEnv map[*ssa.Parameter]spellBinding
+
+type spellBinding struct {
+	v   ssa.Value
+	env spellEnv
+}
 
 type spelling struct {
 	fold bool
@@ -46,7 +53,18 @@ func ruleR14h(c *Ctx, rule string) {
 		pos  token.Pos
 	}
 	var readers []reader
-	for _, pkg := range []string{pkgV1, pkgV2} {
+	pkgs := map[string]bool{}
+	for _, fn := range c.RepoFuncs() {
+		if pp := fnPkgPath(origin(fn)); strings.HasPrefix(pp, modPath+"/internal/api") {
+			pkgs[pp] = true
+		}
+	}
+	var pkgList []string
+	for pp := range pkgs {
+		pkgList = append(pkgList, pp)
+	}
+	sort.Strings(pkgList)
+	for _, pkg := range pkgList {
 		for _, fn := range c.FuncsIn(pkg) {
 			if fn.Synthetic != "" || len(fn.Blocks) == 0 {
 				continue
@@ -70,9 +88,35 @@ func ruleR14h(c *Ctx, rule string) {
 		}
 	}
 	sort.Slice(readers, func(i, j int) bool { return fnName(readers[i].fn) < fnName(readers[j].fn) })
-	if len(readers) < 2 {
-		c.undecided(rule, "floor:flag-readers", token.NoPos, fmt.Sprintf("expected a reader of the preview flag in each API version (v1 and v2 getCommandParameters), found %d", len(readers)))
+	if len(readers) == 0 {
+		c.undecided(rule, "floor:flag-readers", token.NoPos, "no function of internal/api fills command.Parameters.DryRun from a request")
 		return
+	}
+	// each API version has a reader of its own or calls a shared one
+	for _, pkg := range []string{pkgV1, pkgV2} {
+		has := false
+		for _, r := range readers {
+			if fnPkgPath(origin(r.fn)) == pkg {
+				has = true
+			}
+		}
+		for _, fn := range c.FuncsIn(pkg) {
+			if has {
+				break
+			}
+			allCalls(fn, func(ci ssa.CallInstruction) {
+				if g := staticCallee(ci); g != nil {
+					for _, r := range readers {
+						if origin(g) == origin(r.fn) {
+							has = true
+						}
+					}
+				}
+			})
+		}
+		if !has {
+			c.undecided(rule, "floor:flag-reader:"+strings.TrimPrefix(pkg, modPath+"/"), token.NoPos, "no function of the package fills command.Parameters.DryRun or calls a function of internal/api that does")
+		}
 	}
 	show := func(set map[spelling]bool) string {
 		var xs []string
@@ -95,6 +139,9 @@ func ruleR14h(c *Ctx, rule string) {
 		}
 	}
 	first := readers[0]
+	if len(readers) == 1 {
+		c.ok(rule, "one-reader:same-accepted-values", first.pos, "one function reads the flag for every API version")
+	}
 	for _, r := range readers[1:] {
 		key := fnName(first.fn) + "~" + fnName(r.fn) + ":same-accepted-values"
 		if len(first.set) == 0 || len(r.set) == 0 {
@@ -121,8 +168,8 @@ func acceptedSpellings(fn *ssa.Function) (map[spelling]bool, []string) {
 	keySet := map[string]bool{}
 	seen := map[*ssa.Function]bool{}
 	// classify a string value: (from the query, folded)
-	var classify func(v ssa.Value, env map[*ssa.Parameter]ssa.Value, depth int) (fromQuery, fold bool)
-	classify = func(v ssa.Value, env map[*ssa.Parameter]ssa.Value, depth int) (bool, bool) {
+	var classify func(v ssa.Value, env spellEnv, depth int) (fromQuery, fold bool)
+	classify = func(v ssa.Value, env spellEnv, depth int) (bool, bool) {
 		if depth > 8 {
 			return false, false
 		}
@@ -132,8 +179,17 @@ func acceptedSpellings(fn *ssa.Function) (map[spelling]bool, []string) {
 			switch name {
 			case "(net/url.Values).Get", "(*net/http.Request).FormValue":
 				k := x.Call.Args[len(x.Call.Args)-1]
-				if p, ok := k.(*ssa.Parameter); ok && env[p] != nil {
-					k = env[p]
+				kenv := env
+				for i := 0; i < 4; i++ {
+					p, ok := k.(*ssa.Parameter)
+					if !ok {
+						break
+					}
+					b, ok := kenv[p]
+					if !ok {
+						break
+					}
+					k, kenv = b.v, b.env
 				}
 				if s, ok := constString(k); ok {
 					keySet[s] = true
@@ -142,6 +198,10 @@ func acceptedSpellings(fn *ssa.Function) (map[spelling]bool, []string) {
 			case "strings.ToUpper", "strings.ToLower", "strings.TrimSpace":
 				q, f := classify(x.Call.Args[0], env, depth+1)
 				return q, f || name != "strings.TrimSpace"
+			}
+		case *ssa.Parameter:
+			if b, ok := env[x]; ok {
+				return classify(b.v, b.env, depth+1)
 			}
 		case *ssa.Phi:
 			for _, e := range x.Edges {
@@ -168,8 +228,8 @@ func acceptedSpellings(fn *ssa.Function) (map[spelling]bool, []string) {
 			set[spelling{false, text}] = true
 		}
 	}
-	var scan func(g *ssa.Function, env map[*ssa.Parameter]ssa.Value, depth int)
-	scan = func(g *ssa.Function, env map[*ssa.Parameter]ssa.Value, depth int) {
+	var scan func(g *ssa.Function, env spellEnv, depth int)
+	scan = func(g *ssa.Function, env spellEnv, depth int) {
 		if seen[g] {
 			return
 		}
@@ -219,17 +279,13 @@ func acceptedSpellings(fn *ssa.Function) (map[spelling]bool, []string) {
 						continue
 					}
 					h := staticCallee(x)
-					if h == nil || depth >= 2 || len(h.Blocks) == 0 || !inRepo(fnPkgPath(origin(h))) {
+					if h == nil || depth >= 3 || len(h.Blocks) == 0 || !inRepo(fnPkgPath(origin(h))) {
 						continue
 					}
-					env2 := map[*ssa.Parameter]ssa.Value{}
+					env2 := spellEnv{}
 					for i, p := range h.Params {
 						if i < len(x.Call.Args) {
-							a := x.Call.Args[i]
-							if pp, ok := a.(*ssa.Parameter); ok && env[pp] != nil {
-								a = env[pp]
-							}
-							env2[p] = a
+							env2[p] = spellBinding{x.Call.Args[i], env}
 						}
 					}
 					scan(h, env2, depth+1)
@@ -237,7 +293,7 @@ func acceptedSpellings(fn *ssa.Function) (map[spelling]bool, []string) {
 			}
 		}
 	}
-	scan(fn, map[*ssa.Parameter]ssa.Value{}, 0)
+	scan(fn, spellEnv{}, 0)
 	var keys []string
 	for k := range keySet {
 		keys = append(keys, k)
